@@ -105,6 +105,18 @@ pub fn check_exp_one(x: f32) -> Result<Option<f64>, String> {
         return Ok(None);
     }
     let g = expf(x);
+    if !fast() {
+        // build without fastmath (C20): expf is libm's exp, compared on the whole range
+        let exact = (x as f64).exp();
+        if exact > f32::MAX as f64 * (1.0 + 1e-7) {
+            return if g == f32::INFINITY { Ok(Some(0.0)) } else { Err(format!("[exact build] expf({:e}) = {:e}, libm overflows to +inf", x, g)) };
+        }
+        let e = ulp_err(g, exact);
+        if !(e <= 2.0) {
+            return Err(format!("[exact build] expf({:e}) = {:e}, libm {:e}: {:.2} ulp > 2", x, g, exact, e));
+        }
+        return Ok(Some(e));
+    }
     if (-85.0..=85.0).contains(&x) {
         let exact = (x as f64).exp();
         if fast() {
